@@ -279,6 +279,13 @@ def jobs(tier):
         out.append(dict(func="upload", params=dict(n=n, crc=3, sized=1, how="buffered"), weight=n))
         out.append(dict(func="upload", params=dict(n=n, crc=3, sized=0, how="rawall"), weight=n))
         out.append(dict(func="upload", params=dict(n=n, crc=1, sized=1, how="buffered", fault=["end"]), weight=n))
+        # the unused-byte count of the end response corrupted: detectable when the server announced the size
+        if n == 22:
+            # (small values: whether the CRC of the wrongly trimmed data collides is a solver question that does not finish
+            # for longer symbolic values)
+            for m in (3, 10, 14):
+                out.append(dict(func="upload", params=dict(n=m, crc=1, sized=1, how="buffered", fault=["endn"]), weight=m * 50))
+            out.append(dict(func="upload", params=dict(n=30, crc=0, sized=1, how="rawall", fault=["endn"]), weight=30))
         # the same faults when the server does not indicate the size
         out.append(dict(func="upload", params=dict(n=n, crc=1, sized=0, how="buffered", fault=["crc"]), weight=n))
         out.append(dict(func="upload", params=dict(n=n, crc=1, sized=0, how="rawall", fault=["lose", 1]), weight=n))
